@@ -1,8 +1,11 @@
 package tokenizer
 
 import (
+	"errors"
 	"fmt"
 	"strings"
+
+	goerrors "github.com/ajitpratap0/GoSQLX/pkg/errors"
 
 	"github.com/ajitpratap0/GoSQLX/pkg/models"
 	vx "github.com/ajitpratap0/GoSQLX/zzvx"
@@ -66,6 +69,27 @@ func vxC04(maxN, alpha int) {
 	}
 	ref := refLex(in)
 
+	if err != nil {
+		// --- C13: every tokenizer failure is a structured lexical error located inside the input
+		var se *goerrors.Error
+		ok := errors.As(err, &se)
+		vx.Assertf("C13.tok_structured", ok, "tokenizer error is not a *errors.Error: %v", err)
+		if ok {
+			code := string(se.Code)
+			vx.Assertf("C13.tok_family", len(code) == 5 && code[0] == 'E' && code[1] == '1', "lexical failure reported with code %s", code)
+			vx.Assert("C13.tok_message", se.Message != "")
+			nl := 1
+			for _, b := range in {
+				if b == '\n' {
+					nl++
+				}
+			}
+			if se.Location.Line != 0 || se.Location.Column != 0 {
+				vx.Assertf("C13.tok_location", se.Location.Line >= 1 && se.Location.Line <= nl && se.Location.Column >= 0, "location %d:%d outside a %d-line input", se.Location.Line, se.Location.Column, nl)
+			}
+		}
+		vx.Assert("C01.tok_no_tokens_on_error", toks == nil)
+	}
 	if err == nil {
 		// --- generic invariants (every accepted input)
 		n := len(toks)
